@@ -749,10 +749,10 @@ theorem retarget_step_partial (s : St) (i j i1 j2 : Nat) (nm : String)
 
 /-- **copy_independent_partial**: freshness + no write + disjointness + both frame directions, bundled for the deep copy.
 What is missing for the full statement: `copy_iso` — that the copy is field-wise equal to the source under the memo
-(structural equality of source and copy) is *not* proved here; it is covered by the per-case comparison with the real copy
-and by the fingerprint oracle only.  Nor is fuel sufficiency proved: every copy theorem is conditional on the run returning
-`ok` (the driver reports `err fuel` per case, it never defaults; `fuel_mono`/`fuel_result_unique` show that success and the
-result do not depend on the amount of fuel). -/
+(structural equality of source and copy) is proved at object level in `copy_iso_partial` (below), not for the membership of
+annotation sets; the rest is covered by the per-case comparison with the real copy
+and by the fingerprint oracle only.  Fuel sufficiency is proved separately (`copy_total`, `route_total`: on a well-formed heap the run
+returns `ok`), so the hypothesis `hr` of this bundle is satisfiable for every well-formed input. -/
 theorem copy_independent_partial (fuel : Nat) (h : Heap) (v : Val) (s' : St) (v' : Val)
     (hr : cpVal fuel ⟨h, []⟩ v = .ok (s', v')) :
     (∀ p ∈ s'.m, h.size ≤ p.2) ∧
@@ -780,11 +780,11 @@ theorem copy_memo_injective (fuel : Nat) (h : Heap) (pre : Memo) (v : Val) (s' :
 
 /-- **route_spec**: what `copyRoute` — the function the driver runs — does: it pre-seeds (leaving every exported object
 unchanged, allocating only new taxa, seeding only targets that exist and are either listed `.existing` targets of the route
-or new objects, none of which is a bound annotation) and then runs `cpVal` with fuel `h.size + 1` from that state.
+or new objects, none of which is a bound annotation) and then runs `cpVal` with fuel `2 * h.size + 1` from that state.
 Every theorem about `cpVal` above therefore applies to the driver's run with `h := s0.h`, `pre := s0.m`. -/
 theorem route_spec (h : Heap) (pre : List (Nat × PreTarget)) (root : Val) (s' : St) (v' : Val)
     (hr : copyRoute h pre root = .ok (s', v')) :
-    ∃ s0, preseed ⟨h, []⟩ pre = .ok s0 ∧ cpVal (h.size + 1) s0 root = .ok (s', v') ∧
+    ∃ s0, preseed ⟨h, []⟩ pre = .ok s0 ∧ cpVal (2 * h.size + 1) s0 root = .ok (s', v') ∧
       h.size ≤ s0.h.size ∧ (∀ x, x < h.size → s0.h[x]? = h[x]?) ∧ (∀ p ∈ s0.m, p.2 < s0.h.size) ∧
       (∀ t ∈ targets s0.m, (∃ i, (i, PreTarget.existing t) ∈ pre) ∨ h.size ≤ t) ∧
       (∀ x, h.size ≤ x → isBound s0.h x = false) := by
@@ -814,7 +814,7 @@ theorem route_no_write (h : Heap) (pre : List (Nat × PreTarget)) (root : Val) (
     · exact hnb t (by omega)
   obtain ⟨s0h, s0m⟩ := s0
   rw [← hold x hx]
-  exact copy_no_write_scoped (h.size + 1) s0h s0m root s' v' hunb hc x (by simp at hsz; omega)
+  exact copy_no_write_scoped (2 * h.size + 1) s0h s0m root s' v' hunb hc x (by simp at hsz; omega)
 
 /-- **route_shares_only_preseeded**: an exported (old) object reachable from the result of the driver's `copyRoute` is
 reachable from a seeded target, and every seeded target is a listed `.existing` target of the route or a new taxon. With
@@ -826,7 +826,7 @@ theorem route_shares_only_preseeded (h : Heap) (pre : List (Nat × PreTarget)) (
   obtain ⟨s0, _, hc, hsz, _, _, htgt, _⟩ := route_spec h pre root s' v' hr
   intro x hx hlt
   obtain ⟨s0h, s0m⟩ := s0
-  obtain ⟨r, hr1, hr2⟩ := copy_shares_only_preseeded (h.size + 1) s0h s0m root s' v' hc x hx (by simp at hsz; omega)
+  obtain ⟨r, hr1, hr2⟩ := copy_shares_only_preseeded (2 * h.size + 1) s0h s0m root s' v' hc x hx (by simp at hsz; omega)
   exact ⟨r, htgt r hr1, hr2⟩
 
 /-! ### fuel -/
@@ -959,6 +959,1146 @@ theorem fuel_result_unique (f f' : Nat) (s : St) (v : Val) (r r' : St × Val)
   have h2 := fuel_mono f' (max f f') (Nat.le_max_right _ _) s v r' h'
   rw [h1] at h2
   cases h2; rfl
+
+/-! ### fuel sufficiency: the copy succeeds on every well-formed heap -/
+
+/-- a source value: an atom or a reference into the source region `[0, c)` -/
+def SrcVal (c : Nat) (v : Val) : Prop := ∀ i, v = .ref i → i < c
+
+/-- well-formedness of the exported source region `[0, c)` of a heap: references stay inside the region, every annotation set
+(an `annset` object, or whatever an annotation-aware object's `_annotations` refers to) has an item list, and the `target` of an
+annotation set is not itself an annotation set. -/
+structure WellFormed (c : Nat) (h : Heap) : Prop where
+  le : c ≤ h.size
+  closed : ∀ (i : Nat) (o : Obj), i < c → h[i]? = some o → ∀ f ∈ o.fields, SrcVal c f.2
+  annset : ∀ (i : Nat) (o : Obj), i < c → h[i]? = some o → o.kind = .annset →
+    ∃ tv items, o.get "target" = some tv ∧ itemFields h i = some items ∧
+      (∀ t ot, tv = .ref t → h[t]? = some ot → ot.kind ≠ .annset)
+  ann : ∀ (i : Nat) (o : Obj) (a : Nat), i < c → h[i]? = some o → annotationsRef o = some a →
+    ∃ items, itemFields h a = some items
+
+namespace Aux
+
+/-- the body of `cpVal (fuel+1)` for an object that is not an annotation set -/
+def objBody (fuel : Nat) (s : St) (i : Nat) (o : Obj) : Except Err (St × Val) :=
+  match cpFields fuel ⟨s.h.push { o with fields := [] }, (i, s.h.size) :: s.m⟩ (planFields o) with
+  | .error e => .error e
+  | .ok (s2, fs') =>
+    match annotationsRef o with
+    | none => .ok (⟨setFields s2.h s.h.size fs', s2.m⟩, .ref s.h.size)
+    | some a =>
+      match (setFields s2.h s.h.size fs')[a]?, itemFields (setFields s2.h s.h.size fs') a with
+      | some ao, some items =>
+        match cpItems fuel ⟨setFields s2.h s.h.size fs', s2.m⟩ i s.h.size (items.map Prod.snd) with
+        | .error e => .error e
+        | .ok (s4, items') => .ok (attachAnnotations s4 a ao.cls s.h.size items', .ref s.h.size)
+      | _, _ => .error .malformed
+
+/-- the body of `cpVal (fuel+1)` for an annotation set -/
+def setBody (fuel : Nat) (s : St) (i : Nat) (o : Obj) : Except Err (St × Val) :=
+  match o.get "target", itemFields s.h i with
+  | some tv, some items =>
+    match cpVal fuel s tv with
+    | .error e => .error e
+    | .ok (s1, tv') =>
+      match cpFields fuel ⟨s1.h.push { kind := .annset, cls := o.cls, fields := [] }, (i, s1.h.size) :: s1.m⟩ items with
+      | .error e => .error e
+      | .ok (s3, items') =>
+        .ok (⟨setFields ((s3.h.push (Obj.mk .plain "list" (indexed "#" 0 (dedupVals (items'.map Prod.snd).reverse).reverse))).push
+              (Obj.mk .plain "set" (indexed "e" 0 (dedupVals (items'.map Prod.snd).reverse).reverse)))
+            s1.h.size [("_item_list", .ref s3.h.size), ("_item_set", .ref (s3.h.size + 1)), ("target", tv')], s3.m⟩,
+          .ref s1.h.size)
+  | _, _ => .error .malformed
+
+theorem cpVal_obj_eq (fuel : Nat) (s : St) (i : Nat) (o : Obj) (hl : s.m.lookup i = none) (ho : s.h[i]? = some o)
+    (hk : o.kind ≠ .annset) : cpVal (fuel + 1) s (.ref i) = objBody fuel s i o := by
+  simp only [cpVal, hl, ho, objBody]
+  cases hk' : o.kind <;> first | exact absurd hk' hk | rfl
+
+theorem cpVal_set_eq (fuel : Nat) (s : St) (i : Nat) (o : Obj) (hl : s.m.lookup i = none) (ho : s.h[i]? = some o)
+    (hk : o.kind = .annset) : cpVal (fuel + 1) s (.ref i) = setBody fuel s i o := by
+  simp only [cpVal, hl, ho, setBody, hk]
+  rfl
+
+
+/-! #### counting what is still to be copied -/
+def need (c : Nat) (m : Memo) : Nat := ((List.range c).filter (fun i => (m.lookup i).isNone)).length
+def DomLe (m m' : Memo) : Prop := ∀ i, (m.lookup i).isSome = true → (m'.lookup i).isSome = true
+
+theorem domLe_refl (m : Memo) : DomLe m m := fun _ h => h
+theorem domLe_trans {a b c : Memo} (h1 : DomLe a b) (h2 : DomLe b c) : DomLe a c := fun i h => h2 i (h1 i h)
+theorem domLe_cons (m : Memo) (i j : Nat) : DomLe m ((i, j) :: m) := by
+  intro k hk
+  simp only [List.lookup]
+  by_cases e : k == i <;> simp [e, hk]
+
+theorem filter_length_mono (l : List Nat) (p q : Nat → Bool) (h : ∀ x, p x = true → q x = true) :
+    (l.filter p).length ≤ (l.filter q).length := by
+  induction l with
+  | nil => simp
+  | cons x r ih =>
+    simp only [List.filter_cons]
+    by_cases hp : p x = true
+    · simp [hp, h x hp]; exact ih
+    · by_cases hq : q x = true
+      · simp [hp, hq]; omega
+      · simp [hp, hq]; exact ih
+
+theorem filter_length_lt (l : List Nat) (p q : Nat → Bool) (h : ∀ x, p x = true → q x = true) (i : Nat) (hi : i ∈ l)
+    (hq : q i = true) (hp : p i = false) : (l.filter p).length < (l.filter q).length := by
+  induction l with
+  | nil => cases hi
+  | cons x r ih =>
+    simp only [List.filter_cons]
+    rcases List.mem_cons.mp hi with e | e
+    · subst e
+      have := filter_length_mono r p q h
+      simp [hp, hq]; omega
+    · have := ih e
+      by_cases hpx : p x = true
+      · simp [hpx, h x hpx]; exact this
+      · by_cases hqx : q x = true
+        · simp [hpx, hqx]; omega
+        · simp [hpx, hqx]; exact this
+
+theorem need_mono {c : Nat} {m m' : Memo} (h : DomLe m m') : need c m' ≤ need c m := by
+  apply filter_length_mono
+  intro x hx
+  have hx' : (m'.lookup x).isNone = true := hx
+  cases hm : m.lookup x with
+  | none => rfl
+  | some j =>
+    have h2 := h x (by rw [hm]; rfl)
+    cases hm' : m'.lookup x with
+    | none => rw [hm'] at h2; cases h2
+    | some _ => rw [hm'] at hx'; cases hx'
+
+theorem need_lt {c : Nat} {m m' : Memo} (h : DomLe m m') (i : Nat) (hi : i < c) (h0 : m.lookup i = none)
+    (h1 : (m'.lookup i).isSome = true) : need c m' < need c m := by
+  apply filter_length_lt _ _ _ _ i (List.mem_range.mpr hi)
+  · simp [h0]
+  · cases hm : m'.lookup i <;> simp_all
+  · intro x hx
+    have hx' : (m'.lookup x).isNone = true := hx
+    cases hm : m.lookup x with
+    | none => rfl
+    | some j =>
+      have h2 := h x (by rw [hm]; rfl)
+      cases hm' : m'.lookup x with
+      | none => rw [hm'] at h2; cases h2
+      | some _ => rw [hm'] at hx'; cases hx'
+
+theorem need_le (c : Nat) (m : Memo) : need c m ≤ c := by
+  unfold need
+  have := List.length_filter_le (fun i => (m.lookup i).isNone) (List.range c)
+  simpa using this
+
+theorem need_pos {c : Nat} {m : Memo} (i : Nat) (hi : i < c) (h0 : m.lookup i = none) : 0 < need c m := by
+  unfold need
+  apply List.length_pos_of_mem (a := i)
+  simp [List.mem_filter, hi, h0]
+
+/-! #### reading the source region -/
+theorem get_mem {o : Obj} {k : String} {v : Val} (h : o.get k = some v) : (k, v) ∈ o.fields := by
+  unfold Obj.get at h
+  generalize o.fields = fs at h
+  induction fs with
+  | nil => simp at h
+  | cons p r ih =>
+    obtain ⟨a, x⟩ := p
+    simp only [List.lookup] at h
+    by_cases e : k == a
+    · simp [e] at h; simp at e; subst e; subst h; simp
+    · simp [e] at h; exact List.mem_cons_of_mem _ (ih h)
+
+theorem annotationsRef_mem {o : Obj} {a : Nat} (h : annotationsRef o = some a) : ("_annotations", Val.ref a) ∈ o.fields := by
+  have key : (match o.get "_annotations" with | some (Val.ref a) => some a | _ => none) = some a →
+      ("_annotations", Val.ref a) ∈ o.fields := by
+    intro h
+    cases hg : o.get "_annotations" with
+    | none => simp [hg] at h
+    | some v =>
+      cases v with
+      | atom x => simp [hg] at h
+      | ref a' => simp [hg] at h; subst h; exact get_mem hg
+  cases hk : o.kind <;> simp only [annotationsRef, hk] at h <;> first | exact key h | cases h
+
+theorem planFields_sub {o : Obj} {f : String × Val} (h : f ∈ planFields o) : f ∈ o.fields := by
+  cases hk : o.kind <;> simp only [planFields, hk] at h <;>
+    first
+    | exact h
+    | exact (List.mem_filter.mp h).1
+    | (rcases List.mem_append.mp h with h | h <;> exact (List.mem_filter.mp h).1)
+
+theorem itemFields_congr {c : Nat} {h0 h1 : Heap} (wf : WellFormed c h0) (hs : ∀ x, x < c → h1[x]? = h0[x]?) (a : Nat) (ha : a < c) :
+    itemFields h1 a = itemFields h0 a := by
+  unfold itemFields
+  rw [hs a ha]
+  cases hget : h0[a]? with
+  | none => rfl
+  | some so =>
+    simp only
+    cases hl : so.get "_item_list" with
+    | none => rfl
+    | some v =>
+      cases v with
+      | atom x => rfl
+      | ref l =>
+        have : l < c := wf.closed a so ha hget _ (get_mem hl) l rfl
+        simp only [hs l this]
+
+theorem itemFields_src {c : Nat} {h0 : Heap} (wf : WellFormed c h0) (a : Nat) (ha : a < c) (items : List (String × Val))
+    (h : itemFields h0 a = some items) : ∀ f ∈ items, SrcVal c f.2 := by
+  unfold itemFields at h
+  cases hget : h0[a]? with
+  | none => simp [hget] at h
+  | some so =>
+    simp only [hget] at h
+    cases hl : so.get "_item_list" with
+    | none => simp [hl] at h
+    | some v =>
+      cases v with
+      | atom x => simp [hl] at h
+      | ref l =>
+        simp only [hl] at h
+        have hlc : l < c := wf.closed a so ha hget _ (get_mem hl) l rfl
+        cases hgl : h0[l]? with
+        | none => simp [hgl] at h
+        | some lo =>
+          simp only [hgl] at h
+          cases h
+          exact wf.closed l lo hlc hgl
+
+theorem retarget_m (s : St) (i j : Nat) (a1 a2 : Val) : (retarget s i j a1 a2).m = s.m := by
+  unfold retarget
+  split
+  · split
+    · split
+      · split <;> rfl
+      · rfl
+    · rfl
+  · rfl
+
+theorem attach_domLe (s : St) (a : Nat) (cls : String) (j : Nat) (items : List Val) :
+    DomLe s.m (attachAnnotations s a cls j items).m := by
+  unfold attachAnnotations
+  split
+  · exact domLe_refl _
+  · exact domLe_cons _ _ _
+
+theorem old_all {b : Nat} {h0 : Heap} {pre : Memo} {s : St} (g : Good b h0 pre s)
+    (hnw : ∀ x ∈ targets pre, isBound h0 x = false) : ∀ x, x < b → s.h[x]? = h0[x]? := by
+  intro x hx
+  exact g.old x hx (by intro hw; have := hnw x hw.1; rw [hw.2] at this; cases this)
+
+/-! #### totality -/
+section total
+variable (c : Nat) (h0 : Heap) (pre : Memo)
+
+def TV (f : Nat) : Prop := ∀ s v, Good h0.size h0 pre s → SrcVal c v → 2 * need c s.m ≤ f →
+  ∃ s' v', cpVal f s v = .ok (s', v') ∧ DomLe s.m s'.m
+def TV' (f : Nat) : Prop := ∀ s v, Good h0.size h0 pre s → SrcVal c v →
+  (∀ t ot, v = .ref t → h0[t]? = some ot → ot.kind ≠ .annset) → 2 * need c s.m ≤ f + 1 →
+  ∃ s' v', cpVal f s v = .ok (s', v') ∧ DomLe s.m s'.m
+def TF (f : Nat) : Prop := ∀ fs s, Good h0.size h0 pre s → (∀ x ∈ fs, SrcVal c x.2) → 2 * need c s.m ≤ f →
+  ∃ s' fs', cpFields f s fs = .ok (s', fs') ∧ DomLe s.m s'.m
+def TI (f : Nat) : Prop := ∀ items s i j, Good h0.size h0 pre s → h0.size ≤ j → (∀ v ∈ items, SrcVal c v) → 2 * need c s.m ≤ f →
+  ∃ s' items', cpItems f s i j items = .ok (s', items') ∧ DomLe s.m s'.m
+
+variable {c h0 pre}
+
+theorem tf_of_tv {f : Nat} (hv : TV c h0 pre f) : TF c h0 pre f := by
+  intro fs
+  induction fs with
+  | nil => intro s _ _ _; exact ⟨s, [], by simp [cpFields], domLe_refl _⟩
+  | cons kv r ih =>
+    intro s g hsrc hn
+    obtain ⟨k, v⟩ := kv
+    obtain ⟨s1, v1, e1, d1⟩ := hv s v g (hsrc (k, v) (by simp)) hn
+    have g1 := ((pval_all h0.size h0 pre f) s v s1 v1 g e1).1
+    obtain ⟨s2, r', e2, d2⟩ := ih s1 g1 (fun x hx => hsrc x (List.mem_cons_of_mem _ hx)) (by have := need_mono (c := c) d1; omega)
+    exact ⟨s2, (k, v1) :: r', by simp [cpFields, e1, e2], domLe_trans d1 d2⟩
+
+theorem ti_of_tv {f : Nat} (hv : TV c h0 pre f) : TI c h0 pre f := by
+  intro items
+  induction items with
+  | nil => intro s i j _ _ _ _; exact ⟨s, [], by simp [cpItems], domLe_refl _⟩
+  | cons a1 r ih =>
+    intro s i j g hj hsrc hn
+    obtain ⟨s1, a2, e1, d1⟩ := hv s a1 g (hsrc a1 (by simp)) hn
+    obtain ⟨g1, f1⟩ := (pval_all h0.size h0 pre f) s a1 s1 a2 g e1
+    have g1' := good_retarget g1 i j hj a1 a2 f1
+    have hm := retarget_m s1 i j a1 a2
+    obtain ⟨s2, r', e2, d2⟩ := ih (retarget s1 i j a1 a2) i j g1' hj (fun x hx => hsrc x (List.mem_cons_of_mem _ hx))
+      (by rw [hm]; have := need_mono (c := c) d1; omega)
+    refine ⟨s2, a2 :: r', by simp [cpItems, e1, e2], ?_⟩
+    rw [hm] at d2
+    exact domLe_trans d1 d2
+
+
+theorem tv_zero : TV c h0 pre 0 := by
+  intro s v g hsv hn
+  cases v with
+  | atom a => exact ⟨s, .atom a, by simp [cpVal], domLe_refl _⟩
+  | ref i =>
+    cases hl : s.m.lookup i with
+    | some j => exact ⟨s, .ref j, by simp [cpVal, hl], domLe_refl _⟩
+    | none => have := need_pos (c := c) i (hsv i rfl) hl; omega
+
+theorem tv'_zero : TV' c h0 pre 0 := by
+  intro s v g hsv _ hn
+  cases v with
+  | atom a => exact ⟨s, .atom a, by simp [cpVal], domLe_refl _⟩
+  | ref i =>
+    cases hl : s.m.lookup i with
+    | some j => exact ⟨s, .ref j, by simp [cpVal, hl], domLe_refl _⟩
+    | none => have := need_pos (c := c) i (hsv i rfl) hl; omega
+
+theorem tv'_succ (wf : WellFormed c h0) (hnw : ∀ x ∈ targets pre, isBound h0 x = false) {f : Nat}
+    (hv : TV c h0 pre f) : TV' c h0 pre (f + 1) := by
+  have hF := tf_of_tv hv
+  have hI := ti_of_tv hv
+  intro s v g hsv hna hn
+  cases v with
+  | atom a => exact ⟨s, .atom a, by simp [cpVal], domLe_refl _⟩
+  | ref i =>
+    cases hl : s.m.lookup i with
+    | some j => exact ⟨s, .ref j, by simp [cpVal, hl], domLe_refl _⟩
+    | none =>
+      have hic : i < c := hsv i rfl
+      have hib : i < h0.size := Nat.lt_of_lt_of_le hic wf.le
+      have hold := old_all g hnw
+      obtain ⟨o, ho0⟩ : ∃ o, h0[i]? = some o := ⟨h0[i], by simp [hib]⟩
+      have ho : s.h[i]? = some o := by rw [hold i hib]; exact ho0
+      have hk : o.kind ≠ .annset := hna i o rfl ho0
+      rw [cpVal_obj_eq f s i o hl ho hk]
+      have hb := g.base
+      have g1 := good_memo (good_push g { o with fields := [] } (by simp)) i s.h.size hb (by simp)
+        (fun hp p hm => Nat.ne_of_lt (g.lt hp p hm))
+      have hn1 : need c ((i, s.h.size) :: s.m) < need c s.m :=
+        need_lt (domLe_cons _ _ _) i hic hl (by simp [List.lookup])
+      obtain ⟨s2, fs', e1, d1⟩ := hF (planFields o) _ g1
+        (fun x hx => wf.closed i o hic ho0 x (planFields_sub hx)) (by simp only; omega)
+      obtain ⟨g2, ff⟩ := (pfields_of_pval (pval_all h0.size h0 pre f)) _ _ s2 fs' g1 e1
+      have g3 := good_setFields g2 s.h.size hb fs' ff
+      unfold objBody
+      simp only [e1]
+      cases ha : annotationsRef o with
+      | none => exact ⟨_, _, rfl, domLe_trans (domLe_cons _ _ _) d1⟩
+      | some a =>
+        simp only
+        have hac : a < c := wf.closed i o hic ho0 _ (annotationsRef_mem ha) a rfl
+        have hab : a < h0.size := Nat.lt_of_lt_of_le hac wf.le
+        obtain ⟨items, hit0⟩ := wf.ann i o a hic ho0 ha
+        have hold3 := old_all g3 hnw
+        have hit : itemFields (setFields s2.h s.h.size fs') a = some items := by
+          rw [itemFields_congr wf (fun x hx => hold3 x (Nat.lt_of_lt_of_le hx wf.le)) a hac]; exact hit0
+        obtain ⟨ao, hao0⟩ : ∃ ao, h0[a]? = some ao := ⟨h0[a], by simp [hab]⟩
+        have hao : (setFields s2.h s.h.size fs')[a]? = some ao := by rw [hold3 a hab]; exact hao0
+        simp only [hao, hit]
+        have hn2 : need c s2.m ≤ need c ((i, s.h.size) :: s.m) := need_mono d1
+        obtain ⟨s4, items', e2, d2⟩ := hI (items.map Prod.snd) _ i s.h.size g3 hb
+          (by
+            intro v hv
+            obtain ⟨fv, hfv, e⟩ := List.mem_map.mp hv
+            subst e; exact itemFields_src wf a hac items hit0 fv hfv)
+          (by simp only; omega)
+        simp only [e2]
+        exact ⟨_, _, rfl, domLe_trans (domLe_trans (domLe_trans (domLe_cons _ _ _) d1) d2) (attach_domLe _ _ _ _ _)⟩
+
+theorem tv_succ (wf : WellFormed c h0) (hnw : ∀ x ∈ targets pre, isBound h0 x = false) {f : Nat}
+    (hv : TV c h0 pre f) (hv' : TV' c h0 pre f) (hv1 : TV' c h0 pre (f + 1)) : TV c h0 pre (f + 1) := by
+  have hF := tf_of_tv hv
+  intro s v g hsv hn
+  cases v with
+  | atom a => exact ⟨s, .atom a, by simp [cpVal], domLe_refl _⟩
+  | ref i =>
+    cases hl : s.m.lookup i with
+    | some j => exact ⟨s, .ref j, by simp [cpVal, hl], domLe_refl _⟩
+    | none =>
+      have hic : i < c := hsv i rfl
+      have hib : i < h0.size := Nat.lt_of_lt_of_le hic wf.le
+      have hold := old_all g hnw
+      obtain ⟨o, ho0⟩ : ∃ o, h0[i]? = some o := ⟨h0[i], by simp [hib]⟩
+      have ho : s.h[i]? = some o := by rw [hold i hib]; exact ho0
+      by_cases hk : o.kind = .annset
+      · obtain ⟨tv, items, htv, hit0, hnot⟩ := wf.annset i o hic ho0 hk
+        rw [cpVal_set_eq f s i o hl ho hk]
+        unfold setBody
+        have hit : itemFields s.h i = some items := by
+          rw [itemFields_congr wf (fun x hx => hold x (Nat.lt_of_lt_of_le hx wf.le)) i hic]; exact hit0
+        simp only [htv, hit]
+        obtain ⟨s1, tv', e1, d1⟩ := hv' s tv g (wf.closed i o hic ho0 _ (get_mem htv)) hnot (by omega)
+        obtain ⟨g1, ft⟩ := (pval_all h0.size h0 pre f) s tv s1 tv' g e1
+        simp only [e1]
+        have hb1 := g1.base
+        have g2 := good_memo (good_push g1 (Obj.mk .annset o.cls []) (by simp)) i s1.h.size hb1 (by simp)
+          (fun hp p hm => Nat.ne_of_lt (g1.lt hp p hm))
+        have hn1 : need c ((i, s1.h.size) :: s1.m) < need c s.m :=
+          need_lt (domLe_trans d1 (domLe_cons _ _ _)) i hic hl (by simp [List.lookup])
+        obtain ⟨s3, items', e2, d2⟩ := hF items _ g2 (itemFields_src wf i hic items hit0) (by simp only; omega)
+        simp only [e2]
+        exact ⟨_, _, rfl, domLe_trans d1 (domLe_trans (domLe_cons _ _ _) d2)⟩
+      · exact hv1 s (.ref i) g hsv
+          (fun t ot e hot => by cases e; rw [ho0] at hot; cases hot; exact hk) (by omega)
+
+theorem tv_all (wf : WellFormed c h0) (hnw : ∀ x ∈ targets pre, isBound h0 x = false) :
+    ∀ f, TV c h0 pre f ∧ TV' c h0 pre f
+  | 0 => ⟨tv_zero, tv'_zero⟩
+  | f + 1 =>
+    have ih := tv_all wf hnw f
+    have h1 := tv'_succ wf hnw ih.1
+    ⟨tv_succ wf hnw ih.1 ih.2 h1, h1⟩
+
+theorem wf_congr {c : Nat} {h0 h1 : Heap} (wf : WellFormed c h0) (hs : ∀ x, x < c → h1[x]? = h0[x]?) (hle : c ≤ h1.size) :
+    WellFormed c h1 where
+  le := hle
+  closed := by intro i o hi hg; rw [hs i hi] at hg; exact wf.closed i o hi hg
+  annset := by
+    intro i o hi hg hk
+    rw [hs i hi] at hg
+    obtain ⟨tv, items, h1', h2, h3⟩ := wf.annset i o hi hg hk
+    refine ⟨tv, items, h1', by rw [itemFields_congr wf hs i hi]; exact h2, ?_⟩
+    intro t ot e hot
+    have htc : t < c := wf.closed i o hi hg _ (get_mem h1') t e
+    rw [hs t htc] at hot
+    exact h3 t ot e hot
+  ann := by
+    intro i o a hi hg ha
+    rw [hs i hi] at hg
+    obtain ⟨items, h2⟩ := wf.ann i o a hi hg ha
+    have hac : a < c := wf.closed i o hi hg _ (annotationsRef_mem ha) a rfl
+    exact ⟨items, by rw [itemFields_congr wf hs a hac]; exact h2⟩
+end total
+end Aux
+open Aux
+
+/-- **copy_total** (fuel sufficiency): on a well-formed source region `[0, c)` — closed under references, annotation sets with item
+lists, no annotation set as target of another — with no pre-seeded target a bound annotation, the copy of any source value
+SUCCEEDS with any fuel `≥ 2 * c` (the driver's `2 * h.size + 1` in particular): every copy theorem above applies unconditionally. -/
+theorem copy_total (c : Nat) (h : Heap) (pre : Memo) (v : Val) (wf : WellFormed c h)
+    (hnw : ∀ x ∈ targets pre, isBound h x = false) (hv : SrcVal c v) (fuel : Nat) (hf : 2 * c ≤ fuel) :
+    ∃ s' v', cpVal fuel ⟨h, pre⟩ v = .ok (s', v') := by
+  obtain ⟨s', v', e, _⟩ := (tv_all wf hnw fuel).1 ⟨h, pre⟩ v (good_init h pre) hv (by have := need_le c pre; simp only; omega)
+  exact ⟨s', v', e⟩
+
+/-- **route_total**: whenever the route's pre-seeding is accepted, the run of the driver's `copyRoute` on a well-formed exported heap
+(whose listed targets are not bound annotations) from any exported root SUCCEEDS — so `route_no_write`, `route_shares_only_preseeded`
+and all `copy_*` theorems hold for the driver's run unconditionally. -/
+theorem route_total (h : Heap) (pre : List (Nat × PreTarget)) (root : Val) (wf : WellFormed h.size h)
+    (hT : ∀ i t, (i, PreTarget.existing t) ∈ pre → isBound h t = false) (hroot : SrcVal h.size root)
+    (s0 : St) (hp : preseed ⟨h, []⟩ pre = .ok s0) : ∃ s' v', copyRoute h pre root = .ok (s', v') := by
+  have g := preseed_inv h pre pre ⟨h, []⟩ s0 (preinv_init h pre) (fun _ he => he) hp
+  have wf0 : WellFormed h.size s0.h := wf_congr wf g.old g.size
+  have hunb : ∀ t ∈ targets s0.m, isBound s0.h t = false := by
+    intro t ht
+    by_cases hlt : t < h.size
+    · rcases g.tgt t ht with ⟨i, hi⟩ | hge
+      · rw [isBound_congr (g.old t hlt)]; exact hT i t hi
+      · omega
+    · exact g.newUnbound t (by omega)
+  unfold copyRoute
+  simp only [hp]
+  obtain ⟨s0h, s0m⟩ := s0
+  exact copy_total h.size s0h s0m root wf0 hunb hroot (2 * h.size + 1) (by omega)
+
+/-! ### equality: the copy corresponds to its source through the memo -/
+
+/-- two values correspond through the memo: equal atoms, or a source reference and (one of) its copies -/
+def ValRel (m : Memo) : Val → Val → Prop
+  | .atom a, .atom b => a = b
+  | .ref i, .ref j => (i, j) ∈ m
+  | _, _ => False
+
+def isB (o : Obj) : Bool := o.get "is_attribute" == some (.atom "True")
+def annAware : Kind → Bool
+  | .annotable | .taxon | .namespace => true
+  | _ => false
+
+/-- the copy `o'` of a source object `o` carries the same class and kind and the same attributes with corresponding values
+(every attribute of the source except `_annotations` of annotation-aware classes has a counterpart of the same name whose value is
+the memo-image, and the copy has no other attribute), except `_value` of an attribute-bound annotation (re-targeted) and the
+separately rebuilt `_annotations` -/
+def ObjRel (m : Memo) (o o' : Obj) : Prop :=
+  o'.kind = o.kind ∧ o'.cls = o.cls ∧
+  (∀ f' ∈ o'.fields, (f'.1 = "_annotations" ∧ annAware o.kind = true) ∨ (f'.1 = "_value" ∧ isB o' = true) ∨
+      ∃ f ∈ planFields o, f.1 = f'.1 ∧ ValRel m f.2 f'.2) ∧
+  (∀ f ∈ planFields o, ∃ f' ∈ o'.fields, f'.1 = f.1 ∧ (ValRel m f.2 f'.2 ∨ (f.1 = "_value" ∧ isB o' = true)))
+
+namespace Aux
+
+theorem valRel_mono {m m' : Memo} (h : ∀ p ∈ m, p ∈ m') {v v' : Val} (hv : ValRel m v v') : ValRel m' v v' := by
+  cases v <;> cases v' <;> simp_all [ValRel]
+
+theorem objRel_mono {m m' : Memo} (h : ∀ p ∈ m, p ∈ m') {o o' : Obj} (hr : ObjRel m o o') : ObjRel m' o o' := by
+  obtain ⟨h1, h2, h3, h4⟩ := hr
+  refine ⟨h1, h2, ?_, ?_⟩
+  · intro f' hf'
+    rcases h3 f' hf' with a | a | ⟨f, hf, e, r⟩
+    · exact Or.inl a
+    · exact Or.inr (Or.inl a)
+    · exact Or.inr (Or.inr ⟨f, hf, e, valRel_mono h r⟩)
+  · intro f hf
+    obtain ⟨f', hf', e, r⟩ := h4 f hf
+    exact ⟨f', hf', e, r.imp (valRel_mono h) id⟩
+
+theorem mem_setFieldL' {name : String} {v : Val} {fs : List (String × Val)} {f : String × Val}
+    (h : f ∈ setFieldL name v fs) : f = (name, v) ∨ f ∈ fs := by
+  induction fs with
+  | nil => simp [setFieldL] at h; exact Or.inl h
+  | cons p r ih =>
+    obtain ⟨k, x⟩ := p
+    simp only [setFieldL] at h
+    by_cases hk : k == name
+    · simp [hk] at h
+      rcases h with h | h
+      · simp at hk; subst hk; exact Or.inl h
+      · exact Or.inr (List.mem_cons_of_mem _ h)
+    · simp [hk] at h
+      rcases h with h | h
+      · exact Or.inr (by rw [h]; simp)
+      · exact (ih h).imp id (List.mem_cons_of_mem _)
+
+theorem mem_setFieldL_self (name : String) (v : Val) (fs : List (String × Val)) : (name, v) ∈ setFieldL name v fs := by
+  induction fs with
+  | nil => simp [setFieldL]
+  | cons p r ih =>
+    obtain ⟨k, x⟩ := p
+    simp only [setFieldL]
+    by_cases hk : k == name
+    · simp at hk; subst hk; simp
+    · simp [hk]; exact Or.inr ih
+
+theorem mem_setFieldL_of_ne {name : String} {v : Val} {fs : List (String × Val)} {f : String × Val}
+    (h : f ∈ fs) (hne : f.1 ≠ name) : f ∈ setFieldL name v fs := by
+  induction fs with
+  | nil => cases h
+  | cons p r ih =>
+    obtain ⟨k, x⟩ := p
+    simp only [setFieldL]
+    rcases List.mem_cons.mp h with e | e
+    · subst e
+      have : (k == name) = false := by simpa using hne
+      simp [this]
+    · by_cases hk : k == name
+      · simp [hk]; exact Or.inr e
+      · simp [hk]; exact Or.inr (ih e)
+
+theorem lookup_setFieldL_ne {name k : String} (v : Val) (fs : List (String × Val)) (hne : k ≠ name) :
+    (setFieldL name v fs).lookup k = fs.lookup k := by
+  induction fs with
+  | nil =>
+    have : (k == name) = false := by simpa using hne
+    simp [setFieldL, List.lookup, this]
+  | cons p r ih =>
+    obtain ⟨a, x⟩ := p
+    simp only [setFieldL]
+    by_cases ha : a == name
+    · simp at ha; subst ha
+      have : (k == a) = false := by simpa using hne
+      simp [List.lookup, this]
+    · simp only [ha]
+      by_cases hka : k == a
+      · simp [List.lookup, hka]
+      · simp [List.lookup, hka, ih]
+
+/-- rewriting `_value` of a bound copy keeps the correspondence -/
+theorem objRel_setValue {m : Memo} {o o' : Obj} (v : Val) (hb : isB o' = true) (hr : ObjRel m o o') :
+    ObjRel m o { o' with fields := setFieldL "_value" v o'.fields } := by
+  obtain ⟨h1, h2, h3, h4⟩ := hr
+  have hb' : isB { o' with fields := setFieldL "_value" v o'.fields } = true := by
+    unfold isB Obj.get at hb ⊢
+    simp only
+    rw [lookup_setFieldL_ne v o'.fields (by decide)]; exact hb
+  refine ⟨h1, h2, ?_, ?_⟩
+  · intro f' hf'
+    rcases mem_setFieldL' hf' with e | e
+    · exact Or.inr (Or.inl ⟨by rw [e], hb'⟩)
+    · rcases h3 f' e with a | a | a
+      · exact Or.inl a
+      · exact Or.inr (Or.inl ⟨a.1, hb'⟩)
+      · exact Or.inr (Or.inr a)
+  · intro f hf
+    obtain ⟨f', hf', e, r⟩ := h4 f hf
+    by_cases hv : f'.1 = "_value"
+    · exact ⟨("_value", v), mem_setFieldL_self _ _ _, by rw [← e, hv], Or.inr ⟨by rw [← e, hv], hb'⟩⟩
+    · exact ⟨f', mem_setFieldL_of_ne hf' hv, e, r.imp id (fun a => ⟨a.1, hb'⟩)⟩
+
+/-- attaching the rebuilt `_annotations` to a copy of an annotation-aware object keeps the correspondence -/
+theorem objRel_setAnn {m : Memo} {o o' : Obj} (v : Val) (ha : annAware o.kind = true) (hr : ObjRel m o o') :
+    ObjRel m o { o' with fields := setFieldL "_annotations" v o'.fields } := by
+  obtain ⟨h1, h2, h3, h4⟩ := hr
+  have hb' : isB { o' with fields := setFieldL "_annotations" v o'.fields } = isB o' := by
+    unfold isB Obj.get
+    simp only
+    rw [lookup_setFieldL_ne v o'.fields (by decide)]
+  have hplan : ∀ f ∈ planFields o, f.1 ≠ "_annotations" := by
+    intro f hf
+    cases hk : o.kind <;> simp [annAware, hk] at ha <;> simp only [planFields, hk] at hf
+    · have := (List.mem_filter.mp hf).2; simpa using this
+    · have := (List.mem_filter.mp hf).2; simpa using this
+    · rcases List.mem_append.mp hf with hf | hf
+      · have := (List.mem_filter.mp hf).2
+        intro e; rw [e] at this; simp at this
+      · have := (List.mem_filter.mp hf).2
+        intro e; rw [e] at this; simp at this
+  refine ⟨h1, h2, ?_, ?_⟩
+  · intro f' hf'
+    rcases mem_setFieldL' hf' with e | e
+    · exact Or.inl ⟨by rw [e], ha⟩
+    · rcases h3 f' e with a | a | a
+      · exact Or.inl a
+      · exact Or.inr (Or.inl ⟨a.1, by rw [hb']; exact a.2⟩)
+      · exact Or.inr (Or.inr a)
+  · intro f hf
+    obtain ⟨f', hf', e, r⟩ := h4 f hf
+    exact ⟨f', mem_setFieldL_of_ne hf' (by rw [e]; exact hplan f hf), e, r.imp id (fun a => ⟨a.1, by rw [hb']; exact a.2⟩)⟩
+
+
+/-! #### the correspondence invariant -/
+def Blank (h0 : Heap) (s : St) (p : Nat × Nat) : Prop :=
+  ∃ o o', h0[p.1]? = some o ∧ s.h[p.2]? = some o' ∧ o'.fields = [] ∧ (o.kind = .annset ∨ (o'.kind = o.kind ∧ o'.cls = o.cls))
+def Done (h0 : Heap) (s : St) (p : Nat × Nat) : Prop :=
+  ∃ o o', h0[p.1]? = some o ∧ s.h[p.2]? = some o' ∧ (o.kind = .annset ∨ ObjRel s.m o o')
+/-- every memo entry is pre-seeded, or a pending (in-progress, still blank) copy listed in `P`, or a completed copy -/
+def Iso (h0 : Heap) (pre : Memo) (P : List (Nat × Nat)) (s : St) : Prop :=
+  ∀ p ∈ s.m, p ∈ pre ∨ (p ∈ P ∧ Blank h0 s p) ∨ Done h0 s p
+def MemoSub (s s' : St) : Prop := ∀ p ∈ s.m, p ∈ s'.m
+
+theorem iso_push {h0 : Heap} {pre : Memo} {P : List (Nat × Nat)} {s : St} (hi : Iso h0 pre P s) (o : Obj) :
+    Iso h0 pre P ⟨s.h.push o, s.m⟩ := by
+  intro p hp
+  have keep : ∀ (x : Nat) (ox : Obj), s.h[x]? = some ox → (s.h.push o)[x]? = some ox := by
+    intro x ox hx
+    have := (Array.getElem?_eq_some_iff.mp hx).1
+    rw [← hx]; simp [Array.getElem?_push]; omega
+  rcases hi p hp with a | ⟨hP, so, o', h0', h1, h2⟩ | ⟨so, o', h1, h2, h3⟩
+  · exact Or.inl a
+  · exact Or.inr (Or.inl ⟨hP, so, o', h0', keep _ _ h1, h2⟩)
+  · exact Or.inr (Or.inr ⟨so, o', h1, keep _ _ h2, h3⟩)
+
+theorem iso_memo {h0 : Heap} {pre : Memo} {P : List (Nat × Nat)} {s : St} (hi : Iso h0 pre P s) (i j : Nat)
+    (hnew : ((i, j) ∈ P ∧ Blank h0 s (i, j)) ∨ Done h0 ⟨s.h, (i, j) :: s.m⟩ (i, j)) : Iso h0 pre P ⟨s.h, (i, j) :: s.m⟩ := by
+  intro p hp
+  rcases List.mem_cons.mp hp with e | e
+  · subst e
+    rcases hnew with a | a
+    · exact Or.inr (Or.inl a)
+    · exact Or.inr (Or.inr a)
+  · rcases hi p e with a | a | ⟨so, o', h1, h2, h3⟩
+    · exact Or.inl a
+    · exact Or.inr (Or.inl a)
+    · exact Or.inr (Or.inr ⟨so, o', h1, h2, h3.imp id (objRel_mono (fun q hq => List.mem_cons_of_mem _ hq))⟩)
+
+/-- replacing object `j`: the entries with another target are unaffected, those with target `j` are re-established by the caller -/
+theorem iso_update {h0 : Heap} {pre : Memo} {P P' : List (Nat × Nat)} {s : St} (hi : Iso h0 pre P s) (j : Nat) (onew : Obj)
+    (hP : ∀ p ∈ P, p.2 ≠ j → p ∈ P')
+    (hj : ∀ p ∈ s.m, p.2 = j → p ∈ pre ∨ (p ∈ P' ∧ Blank h0 ⟨s.h.setIfInBounds j onew, s.m⟩ p) ∨
+      Done h0 ⟨s.h.setIfInBounds j onew, s.m⟩ p) :
+    Iso h0 pre P' ⟨s.h.setIfInBounds j onew, s.m⟩ := by
+  intro p hp
+  by_cases e : p.2 = j
+  · exact hj p hp e
+  · have keep : (s.h.setIfInBounds j onew)[p.2]? = s.h[p.2]? := by
+      simp [Array.getElem?_setIfInBounds, Ne.symm e]
+    rcases hi p hp with a | ⟨hp', so, o', h0', h1, h2⟩ | ⟨so, o', h1, h2, h3⟩
+    · exact Or.inl a
+    · exact Or.inr (Or.inl ⟨hP p hp' e, so, o', h0', by rw [keep]; exact h1, h2⟩)
+    · exact Or.inr (Or.inr ⟨so, o', h1, by rw [keep]; exact h2, h3⟩)
+
+theorem iso_weaken {h0 : Heap} {pre : Memo} {P P' : List (Nat × Nat)} {s : St} (hi : Iso h0 pre P s)
+    (hP : ∀ p ∈ P, p ∈ P') : Iso h0 pre P' s := by
+  intro p hp
+  rcases hi p hp with a | ⟨b, c⟩ | d
+  · exact Or.inl a
+  · exact Or.inr (Or.inl ⟨hP p b, c⟩)
+  · exact Or.inr (Or.inr d)
+
+theorem pend_drop {P : List (Nat × Nat)} {i j : Nat} : ∀ p ∈ (i, j) :: P, p.2 ≠ j → p ∈ P := by
+  intro p hp hne
+  rcases List.mem_cons.mp hp with e | e
+  · subst e; exact absurd rfl hne
+  · exact e
+
+theorem setField_eq {h : Heap} {j : Nat} {o : Obj} (hg : h[j]? = some o) (n : String) (v : Val) :
+    setField h j n v = h.setIfInBounds j { o with fields := setFieldL n v o.fields } := by
+  unfold setField; rw [hg]
+theorem setFields_eq {h : Heap} {j : Nat} {o : Obj} (hg : h[j]? = some o) (fs : List (String × Val)) :
+    setFields h j fs = h.setIfInBounds j { o with fields := fs } := by
+  unfold setFields; rw [hg]
+theorem getElem?_set_self {h : Heap} {j : Nat} {o : Obj} (hg : h[j]? = some o) (onew : Obj) :
+    (h.setIfInBounds j onew)[j]? = some onew := by
+  have := (Array.getElem?_eq_some_iff.mp hg).1
+  simp [Array.getElem?_setIfInBounds, this]
+
+theorem isBound_eq_isB {h : Heap} {j : Nat} {o : Obj} (hg : h[j]? = some o) : isBound h j = isB o := by
+  unfold isBound isB; rw [hg]
+
+theorem iso_retarget {b : Nat} {h0 : Heap} {pre : Memo} {P : List (Nat × Nat)} {s : St} (g : Good b h0 pre s)
+    (hi : Iso h0 pre P s) (i j : Nat) (a1 a2 : Val) : Iso h0 pre P (retarget s i j a1 a2) := by
+  unfold retarget
+  split
+  · rename_i i1 j2
+    split
+    · rename_i hb
+      split
+      · rename_i ow nm hbv
+        split
+        · have hlt : j2 < s.h.size := by
+            unfold isBound at hb
+            cases hg : s.h[j2]? with
+            | none => simp [hg] at hb
+            | some o => exact (Array.getElem?_eq_some_iff.mp hg).1
+          obtain ⟨o2, ho2⟩ : ∃ o2, s.h[j2]? = some o2 := ⟨s.h[j2], by simp [hlt]⟩
+          have hi1 := iso_push hi (Obj.mk .tuple "tuple" [("#0", .ref j), ("#1", .atom nm)])
+          have ho2' : (s.h.push (Obj.mk .tuple "tuple" [("#0", .ref j), ("#1", .atom nm)]))[j2]? = some o2 := by
+            rw [← ho2]; simp [Array.getElem?_push]; omega
+          show Iso h0 pre P ⟨setField (s.h.push (Obj.mk .tuple "tuple" [("#0", .ref j), ("#1", .atom nm)])) j2 "_value"
+            (.ref s.h.size), s.m⟩
+          rw [setField_eq ho2']
+          apply iso_update hi1 j2 _ (fun p hp _ => hp)
+          intro p hp e
+          have hbo : isB o2 = true := by rw [← isBound_eq_isB ho2]; exact hb
+          rcases hi1 p hp with a | ⟨_, so, o', _, h1, h2, _⟩ | ⟨so, o', h1, h2, h3⟩
+          · exact Or.inl a
+          · exfalso
+            rw [e] at h1; simp only at h1; rw [ho2'] at h1; cases h1
+            simp [isB, Obj.get, h2] at hbo
+          · refine Or.inr (Or.inr ⟨so, _, h1, by rw [e]; exact getElem?_set_self ho2' _, ?_⟩)
+            rw [e] at h2; simp only at h2; rw [ho2'] at h2; cases h2
+            exact h3.imp id (objRel_setValue _ hbo)
+        · exact hi
+      · exact hi
+    · exact hi
+  · exact hi
+
+/-- what a (sub-)call guarantees about what was already there: memo entries stay, blank (in-progress) and completed copies stay so -/
+structure Stable (h0 : Heap) (s s' : St) : Prop where
+  sub : MemoSub s s'
+  size : s.h.size ≤ s'.h.size
+  blank : ∀ p, Blank h0 s p → Blank h0 s' p
+  done : ∀ p, Done h0 s p → Done h0 s' p
+
+theorem stable_refl (h0 : Heap) (s : St) : Stable h0 s s := ⟨fun _ h => h, Nat.le_refl _, fun _ h => h, fun _ h => h⟩
+theorem stable_trans {h0 : Heap} {a b c : St} (h1 : Stable h0 a b) (h2 : Stable h0 b c) : Stable h0 a c :=
+  ⟨fun p h => h2.sub p (h1.sub p h), Nat.le_trans h1.size h2.size, fun p h => h2.blank p (h1.blank p h),
+    fun p h => h2.done p (h1.done p h)⟩
+
+theorem stable_push (h0 : Heap) (s : St) (o : Obj) : Stable h0 s ⟨s.h.push o, s.m⟩ := by
+  have keep : ∀ (x : Nat) (ox : Obj), s.h[x]? = some ox → (s.h.push o)[x]? = some ox := by
+    intro x ox hx
+    have := (Array.getElem?_eq_some_iff.mp hx).1
+    rw [← hx]; simp [Array.getElem?_push]; omega
+  refine ⟨fun _ h => h, by simp, ?_, ?_⟩
+  · rintro p ⟨so, o', a, b, c⟩; exact ⟨so, o', a, keep _ _ b, c⟩
+  · rintro p ⟨so, o', a, b, c⟩; exact ⟨so, o', a, keep _ _ b, c⟩
+
+theorem stable_memo (h0 : Heap) (s : St) (i j : Nat) : Stable h0 s ⟨s.h, (i, j) :: s.m⟩ := by
+  refine ⟨fun p h => List.mem_cons_of_mem _ h, Nat.le_refl _, fun _ h => h, ?_⟩
+  rintro p ⟨so, o', a, b, c⟩
+  exact ⟨so, o', a, b, c.imp id (objRel_mono (fun q hq => List.mem_cons_of_mem _ hq))⟩
+
+/-- overwriting an object that did not exist in `s` (allocated since) cannot disturb what `s` knew -/
+theorem stable_update_new {h0 : Heap} {s s2 : St} (h : Stable h0 s s2) (j : Nat) (hj : s.h.size ≤ j) (onew : Obj) :
+    Stable h0 s ⟨s2.h.setIfInBounds j onew, s2.m⟩ := by
+  have ne : ∀ (p : Nat × Nat) (ox : Obj), s.h[p.2]? = some ox → (s2.h.setIfInBounds j onew)[p.2]? = s2.h[p.2]? := by
+    intro p ox hx
+    have := (Array.getElem?_eq_some_iff.mp hx).1
+    have : j ≠ p.2 := by omega
+    simp [Array.getElem?_setIfInBounds, this]
+  refine ⟨h.sub, by simpa using h.size, ?_, ?_⟩
+  · intro p hp
+    obtain ⟨so, o', a, b, c⟩ := h.blank p hp
+    obtain ⟨_, ox, _, hx, _⟩ := hp
+    exact ⟨so, o', a, by rw [ne p ox hx]; exact b, c⟩
+  · intro p hp
+    obtain ⟨so, o', a, b, c⟩ := h.done p hp
+    obtain ⟨_, ox, _, hx, _⟩ := hp
+    exact ⟨so, o', a, by rw [ne p ox hx]; exact b, c⟩
+
+theorem stable_retarget (h0 : Heap) (s : St) (i j : Nat) (a1 a2 : Val) : Stable h0 s (retarget s i j a1 a2) := by
+  unfold retarget
+  split
+  · rename_i i1 j2
+    split
+    · rename_i hb
+      split
+      · rename_i ow nm hbv
+        split
+        · have hlt : j2 < s.h.size := by
+            unfold isBound at hb
+            cases hg : s.h[j2]? with
+            | none => simp [hg] at hb
+            | some o => exact (Array.getElem?_eq_some_iff.mp hg).1
+          obtain ⟨o2, ho2⟩ : ∃ o2, s.h[j2]? = some o2 := ⟨s.h[j2], by simp [hlt]⟩
+          have hbo : isB o2 = true := by rw [← isBound_eq_isB ho2]; exact hb
+          have ho2' : (s.h.push (Obj.mk .tuple "tuple" [("#0", .ref j), ("#1", .atom nm)]))[j2]? = some o2 := by
+            rw [← ho2]; simp [Array.getElem?_push]; omega
+          show Stable h0 s ⟨setField (s.h.push (Obj.mk .tuple "tuple" [("#0", .ref j), ("#1", .atom nm)])) j2 "_value"
+            (.ref s.h.size), s.m⟩
+          rw [setField_eq ho2']
+          have sp := stable_push h0 s (Obj.mk .tuple "tuple" [("#0", .ref j), ("#1", .atom nm)])
+          refine ⟨fun _ h => h, by simp, ?_, ?_⟩
+          · intro p hp
+            obtain ⟨so, o', a, b, c, d⟩ := sp.blank p hp
+            by_cases e : p.2 = j2
+            · exfalso
+              rw [e] at b; simp only at b; rw [ho2'] at b; cases b
+              simp [isB, Obj.get, c] at hbo
+            · exact ⟨so, o', a, by simp only; rw [← b]; simp [Array.getElem?_setIfInBounds, Ne.symm e], c, d⟩
+          · intro p hp
+            obtain ⟨so, o', a, b, c⟩ := sp.done p hp
+            by_cases e : p.2 = j2
+            · rw [e] at b; simp only at b; rw [ho2'] at b; cases b
+              exact ⟨so, _, a, by simp only; rw [e]; exact getElem?_set_self ho2' _, c.imp id (objRel_setValue _ hbo)⟩
+            · exact ⟨so, o', a, by simp only; rw [← b]; simp [Array.getElem?_setIfInBounds, Ne.symm e], c⟩
+        · exact stable_refl _ _
+      · exact stable_refl _ _
+    · exact stable_refl _ _
+  · exact stable_refl _ _
+
+theorem annotationsRef_aware {o : Obj} {a : Nat} (h : annotationsRef o = some a) : annAware o.kind = true := by
+  cases hk : o.kind <;> simp only [annotationsRef, hk] at h <;> first | rfl | cases h
+
+section iso
+variable (c : Nat) (h0 : Heap) (pre : Memo)
+
+def QV (f : Nat) : Prop := ∀ (P : List (Nat × Nat)) s v s' v', Good h0.size h0 pre s → Iso h0 pre P s → SrcVal c v → cpVal f s v = .ok (s', v') →
+  Iso h0 pre P s' ∧ Stable h0 s s' ∧ ValRel s'.m v v'
+def QF (f : Nat) : Prop := ∀ fs (P : List (Nat × Nat)) s s' fs', Good h0.size h0 pre s → Iso h0 pre P s → (∀ x ∈ fs, SrcVal c x.2) →
+  cpFields f s fs = .ok (s', fs') →
+  Iso h0 pre P s' ∧ Stable h0 s s' ∧ (∀ f' ∈ fs', ∃ x ∈ fs, x.1 = f'.1 ∧ ValRel s'.m x.2 f'.2) ∧
+    (∀ x ∈ fs, ∃ f' ∈ fs', f'.1 = x.1 ∧ ValRel s'.m x.2 f'.2)
+def QI (f : Nat) : Prop := ∀ items (P : List (Nat × Nat)) s i j s' items', Good h0.size h0 pre s → Iso h0 pre P s → h0.size ≤ j →
+  (∀ v ∈ items, SrcVal c v) → cpItems f s i j items = .ok (s', items') → Iso h0 pre P s' ∧ Stable h0 s s'
+
+variable {c h0 pre}
+
+theorem qf_of_qv {f : Nat} (hq : QV c h0 pre f) : QF c h0 pre f := by
+  intro fs
+  induction fs with
+  | nil =>
+    intro P s s' fs' g hi _ h
+    simp [cpFields] at h
+    obtain ⟨e1, e2⟩ := h; subst e1; subst e2
+    exact ⟨hi, stable_refl _ _, by simp, by simp⟩
+  | cons kv r ih =>
+    intro P s s' fs' g hi hsrc h
+    obtain ⟨k, v⟩ := kv
+    simp only [cpFields] at h
+    cases h1 : cpVal f s v with
+    | error e => simp [h1] at h
+    | ok r1 =>
+      obtain ⟨s1, v1⟩ := r1
+      simp only [h1] at h
+      cases h2 : cpFields f s1 r with
+      | error e => simp [h2] at h
+      | ok r2 =>
+        obtain ⟨s2, r'⟩ := r2
+        simp only [h2] at h
+        simp at h
+        obtain ⟨e1, e2⟩ := h; subst e1; subst e2
+        obtain ⟨i1, st1, rv⟩ := hq P s v s1 v1 g hi (hsrc (k, v) (by simp)) h1
+        have g1 := ((pval_all h0.size h0 pre f) s v s1 v1 g h1).1
+        obtain ⟨i2, st2, ra, rb⟩ := ih P s1 s2 r' g1 i1 (fun x hx => hsrc x (List.mem_cons_of_mem _ hx)) h2
+        refine ⟨i2, stable_trans st1 st2, ?_, ?_⟩
+        · intro f' hf'
+          rcases List.mem_cons.mp hf' with e | e
+          · subst e; exact ⟨(k, v), by simp, rfl, valRel_mono st2.sub rv⟩
+          · obtain ⟨x, hx, a, b⟩ := ra f' e
+            exact ⟨x, List.mem_cons_of_mem _ hx, a, b⟩
+        · intro x hx
+          rcases List.mem_cons.mp hx with e | e
+          · subst e; exact ⟨(k, v1), by simp, rfl, valRel_mono st2.sub rv⟩
+          · obtain ⟨f', hf', a, b⟩ := rb x e
+            exact ⟨f', List.mem_cons_of_mem _ hf', a, b⟩
+
+theorem qi_of_qv {f : Nat} (hq : QV c h0 pre f) : QI c h0 pre f := by
+  intro items
+  induction items with
+  | nil =>
+    intro P s i j s' items' g hi _ _ h
+    simp [cpItems] at h
+    obtain ⟨e1, e2⟩ := h; subst e1; subst e2
+    exact ⟨hi, stable_refl _ _⟩
+  | cons a1 r ih =>
+    intro P s i j s' items' g hi hj hsrc h
+    simp only [cpItems] at h
+    cases h1 : cpVal f s a1 with
+    | error e => simp [h1] at h
+    | ok r1 =>
+      obtain ⟨s1, a2⟩ := r1
+      simp only [h1] at h
+      cases h2 : cpItems f (retarget s1 i j a1 a2) i j r with
+      | error e => simp [h2] at h
+      | ok r2 =>
+        obtain ⟨s2, r'⟩ := r2
+        simp only [h2] at h
+        simp at h
+        obtain ⟨e1, e2⟩ := h; subst e1; subst e2
+        obtain ⟨i1, st1, _⟩ := hq P s a1 s1 a2 g hi (hsrc a1 (by simp)) h1
+        obtain ⟨g1, f1⟩ := (pval_all h0.size h0 pre f) s a1 s1 a2 g h1
+        have g1' := good_retarget g1 i j hj a1 a2 f1
+        have i1' := iso_retarget g1 i1 i j a1 a2
+        obtain ⟨i2, st2⟩ := ih P (retarget s1 i j a1 a2) i j s2 r' g1' i1' hj (fun x hx => hsrc x (List.mem_cons_of_mem _ hx)) h2
+        exact ⟨i2, stable_trans st1 (stable_trans (stable_retarget h0 s1 i j a1 a2) st2)⟩
+
+theorem qv_zero : QV c h0 pre 0 := by
+  intro P s v s' v' g hi _ h
+  cases v with
+  | atom a =>
+    simp [cpVal] at h
+    obtain ⟨e1, e2⟩ := h; subst e1; subst e2
+    exact ⟨hi, stable_refl _ _, by simp [ValRel]⟩
+  | ref i =>
+    simp only [cpVal] at h
+    cases hl : s.m.lookup i with
+    | none => simp [hl] at h
+    | some j =>
+      simp [hl] at h
+      obtain ⟨e1, e2⟩ := h; subst e1; subst e2
+      exact ⟨hi, stable_refl _ _, lookup_mem hl⟩
+
+
+theorem qv_succ (wf : WellFormed c h0) (hnw : ∀ x ∈ targets pre, isBound h0 x = false) (hpre : ∀ p ∈ pre, p.2 < h0.size)
+    (hann : ∀ (i : Nat) (o : Obj) (a : Nat), i < c → h0[i]? = some o → annotationsRef o = some a →
+      ∃ ao, h0[a]? = some ao ∧ ao.kind = .annset)
+    {f : Nat} (hq : QV c h0 pre f) : QV c h0 pre (f + 1) := by
+  have hF := qf_of_qv hq
+  have hI := qi_of_qv hq
+  intro P s v s' v' g hi hsv h
+  cases v with
+  | atom a =>
+    simp [cpVal] at h
+    obtain ⟨e1, e2⟩ := h; subst e1; subst e2
+    exact ⟨hi, stable_refl _ _, by simp [ValRel]⟩
+  | ref i =>
+    cases hl : s.m.lookup i with
+    | some j =>
+      simp [cpVal, hl] at h
+      obtain ⟨e1, e2⟩ := h; subst e1; subst e2
+      exact ⟨hi, stable_refl _ _, lookup_mem hl⟩
+    | none =>
+      have hic : i < c := hsv i rfl
+      have hib : i < h0.size := Nat.lt_of_lt_of_le hic wf.le
+      have hold := old_all g hnw
+      obtain ⟨o, ho0⟩ : ∃ o, h0[i]? = some o := ⟨h0[i], by simp [hib]⟩
+      have ho : s.h[i]? = some o := by rw [hold i hib]; exact ho0
+      have hb := g.base
+      by_cases hk : o.kind = .annset
+      · obtain ⟨tv, items, htv, hit0, _⟩ := wf.annset i o hic ho0 hk
+        rw [cpVal_set_eq f s i o hl ho hk] at h
+        unfold setBody at h
+        have hit : itemFields s.h i = some items := by
+          rw [itemFields_congr wf (fun x hx => hold x (Nat.lt_of_lt_of_le hx wf.le)) i hic]; exact hit0
+        simp only [htv, hit] at h
+        cases e1 : cpVal f s tv with
+        | error e => simp [e1] at h
+        | ok r1 =>
+          obtain ⟨s1, tv'⟩ := r1
+          simp only [e1] at h
+          obtain ⟨i1, st1, _⟩ := hq P s tv s1 tv' g hi (wf.closed i o hic ho0 _ (get_mem htv)) e1
+          obtain ⟨g1, _⟩ := (pval_all h0.size h0 pre f) s tv s1 tv' g e1
+          have hb1 := g1.base
+          have g2 := good_memo (good_push g1 (Obj.mk .annset o.cls []) (by simp)) i s1.h.size hb1 (by simp)
+            (fun hp p hm => Nat.ne_of_lt (g1.lt hp p hm))
+          have hA : (s1.h.push (Obj.mk .annset o.cls []))[s1.h.size]? = some (Obj.mk .annset o.cls []) := by simp
+          have i2 := iso_memo (iso_push (iso_weaken i1 (P' := (i, s1.h.size) :: P) (fun p hp => List.mem_cons_of_mem _ hp))
+            (Obj.mk .annset o.cls [])) i s1.h.size (Or.inl ⟨by simp, o, _, ho0, hA, rfl, Or.inl hk⟩)
+          have st2 := stable_trans (stable_push h0 s1 (Obj.mk .annset o.cls [])) (stable_memo h0 _ i s1.h.size)
+          cases e2 : cpFields f ⟨s1.h.push (Obj.mk .annset o.cls []), (i, s1.h.size) :: s1.m⟩ items with
+          | error e => simp [e2] at h
+          | ok r2 =>
+            obtain ⟨s3, items'⟩ := r2
+            simp only [e2] at h
+            simp at h
+            obtain ⟨e1', e2'⟩ := h; subst e1'; subst e2'
+            obtain ⟨i3, st3, _, _⟩ := hF items ((i, s1.h.size) :: P) _ s3 items' g2 i2 (itemFields_src wf i hic items hit0) e2
+            obtain ⟨g3, _⟩ := (pfields_of_pval (pval_all h0.size h0 pre f)) items _ s3 items' g2 e2
+            have hmem : (i, s1.h.size) ∈ s3.m := st3.sub _ (by simp)
+            have hjlt : s1.h.size < s3.h.size := g3.lt hpre _ hmem
+            generalize hL : (Obj.mk .plain "list" (indexed "#" 0 (dedupVals (items'.map Prod.snd).reverse).reverse)) = L
+            generalize hS : (Obj.mk .plain "set" (indexed "e" 0 (dedupVals (items'.map Prod.snd).reverse).reverse)) = S
+            have hlt2 : s1.h.size < ((s3.h.push L).push S).size := by simp; omega
+            obtain ⟨oj, hoj⟩ : ∃ oj, ((s3.h.push L).push S)[s1.h.size]? = some oj :=
+              ⟨((s3.h.push L).push S)[s1.h.size], by simp [hlt2]⟩
+            rw [setFields_eq hoj]
+            have stA : Stable h0 s ⟨(s3.h.push L).push S, s3.m⟩ :=
+              stable_trans st1 (stable_trans st2 (stable_trans st3
+                (stable_trans (stable_push h0 s3 L) (stable_push h0 ⟨s3.h.push L, s3.m⟩ S))))
+            refine ⟨?_, stable_update_new stA s1.h.size st1.size _, hmem⟩
+            apply iso_update (iso_push (iso_push i3 L) S) s1.h.size _ pend_drop
+            intro p hp e
+            have hpi : i = p.1 := g3.inj hpre (i, s1.h.size) p hmem hp hb1 e.symm
+            refine Or.inr (Or.inr ⟨o, _, by rw [← hpi]; exact ho0, by rw [e]; exact getElem?_set_self hoj _, Or.inl hk⟩)
+      · rw [cpVal_obj_eq f s i o hl ho hk] at h
+        unfold objBody at h
+        have g1 := good_memo (good_push g { o with fields := [] } (by simp)) i s.h.size hb (by simp)
+          (fun hp p hm => Nat.ne_of_lt (g.lt hp p hm))
+        have hA : (s.h.push { o with fields := [] })[s.h.size]? = some { o with fields := [] } := by simp
+        have i1 := iso_memo (iso_push (iso_weaken hi (P' := (i, s.h.size) :: P) (fun p hp => List.mem_cons_of_mem _ hp))
+          { o with fields := [] }) i s.h.size (Or.inl ⟨by simp, o, _, ho0, hA, rfl, Or.inr ⟨rfl, rfl⟩⟩)
+        have st1 := stable_trans (stable_push h0 s { o with fields := [] }) (stable_memo h0 _ i s.h.size)
+        cases e1 : cpFields f ⟨s.h.push { o with fields := [] }, (i, s.h.size) :: s.m⟩ (planFields o) with
+        | error e => simp [e1] at h
+        | ok r1 =>
+          obtain ⟨s2, fs'⟩ := r1
+          simp only [e1] at h
+          obtain ⟨i2, st2, ra, rb⟩ := hF (planFields o) ((i, s.h.size) :: P) _ s2 fs' g1 i1
+            (fun x hx => wf.closed i o hic ho0 x (planFields_sub hx)) e1
+          obtain ⟨g2, ff⟩ := (pfields_of_pval (pval_all h0.size h0 pre f)) _ _ s2 fs' g1 e1
+          have g3 := good_setFields g2 s.h.size hb fs' ff
+          have hmem : (i, s.h.size) ∈ s2.m := st2.sub _ (by simp)
+          -- the in-progress object is still blank, with the kind and class of its source
+          obtain ⟨so, oj, hso, hoj, _, hkc⟩ := st2.blank (i, s.h.size) ⟨o, _, ho0, hA, rfl, Or.inr ⟨rfl, rfl⟩⟩
+          simp only at hso hoj
+          rw [ho0] at hso; cases hso
+          have hkc' : oj.kind = o.kind ∧ oj.cls = o.cls := hkc.resolve_left hk
+          have hdone : ObjRel s2.m o { oj with fields := fs' } := by
+            refine ⟨hkc'.1, hkc'.2, ?_, ?_⟩
+            · intro f' hf'
+              obtain ⟨x, hx, a, b⟩ := ra f' hf'
+              exact Or.inr (Or.inr ⟨x, hx, a, b⟩)
+            · intro x hx
+              obtain ⟨f', hf', a, b⟩ := rb x hx
+              exact ⟨f', hf', a, Or.inl b⟩
+          have i3 : Iso h0 pre P ⟨setFields s2.h s.h.size fs', s2.m⟩ := by
+            rw [setFields_eq hoj]
+            apply iso_update i2 s.h.size _ pend_drop
+            intro p hp e
+            have hpi : i = p.1 := g2.inj hpre (i, s.h.size) p hmem hp hb e.symm
+            exact Or.inr (Or.inr ⟨o, _, by rw [← hpi]; exact ho0, by rw [e]; exact getElem?_set_self hoj _, Or.inr hdone⟩)
+          have st3 : Stable h0 s ⟨setFields s2.h s.h.size fs', s2.m⟩ := by
+            rw [setFields_eq hoj]
+            exact stable_update_new (stable_trans st1 st2) s.h.size (Nat.le_refl _) _
+          have hd3 : Done h0 ⟨setFields s2.h s.h.size fs', s2.m⟩ (i, s.h.size) := by
+            rw [setFields_eq hoj]
+            exact ⟨o, _, ho0, getElem?_set_self hoj _, Or.inr hdone⟩
+          cases ha : annotationsRef o with
+          | none =>
+            simp only [ha] at h
+            simp at h
+            obtain ⟨e1', e2'⟩ := h; subst e1'; subst e2'
+            exact ⟨i3, st3, hmem⟩
+          | some a =>
+            simp only [ha] at h
+            have hac : a < c := wf.closed i o hic ho0 _ (annotationsRef_mem ha) a rfl
+            have hab : a < h0.size := Nat.lt_of_lt_of_le hac wf.le
+            obtain ⟨items, hit0⟩ := wf.ann i o a hic ho0 ha
+            obtain ⟨ao, hao0, haok⟩ := hann i o a hic ho0 ha
+            have hold3 := old_all g3 hnw
+            have hit : itemFields (setFields s2.h s.h.size fs') a = some items := by
+              rw [itemFields_congr wf (fun x hx => hold3 x (Nat.lt_of_lt_of_le hx wf.le)) a hac]; exact hit0
+            have hao : (setFields s2.h s.h.size fs')[a]? = some ao := by rw [hold3 a hab]; exact hao0
+            simp only [hao, hit] at h
+            cases e2 : cpItems f ⟨setFields s2.h s.h.size fs', s2.m⟩ i s.h.size (items.map Prod.snd) with
+            | error e => simp [e2] at h
+            | ok r2 =>
+              obtain ⟨s4, items'⟩ := r2
+              simp only [e2] at h
+              simp at h
+              obtain ⟨e1', e2'⟩ := h; subst e1'; subst e2'
+              obtain ⟨i4, st4⟩ := hI (items.map Prod.snd) P _ i s.h.size s4 items' g3 i3 hb
+                (by
+                  intro v hv
+                  obtain ⟨fv, hfv, e⟩ := List.mem_map.mp hv
+                  subst e; exact itemFields_src wf a hac items hit0 fv hfv) e2
+              obtain ⟨g4, _⟩ := (pitems_of_pval (pval_all h0.size h0 pre f)) _ _ i s.h.size s4 items' g3 hb e2
+              have hmem4 : (i, s.h.size) ∈ s4.m := st4.sub _ hmem
+              have hd4 := st4.done _ hd3
+              have st04 := stable_trans st3 st4
+              -- attach
+              unfold attachAnnotations
+              split
+              · exact ⟨i4, st04, hmem4⟩
+              · simp only [pushAnnSet]
+                generalize hL : (Obj.mk .plain "list" (indexed "#" 0 (dedupVals items'.reverse).reverse)) = L
+                generalize hS : (Obj.mk .plain "set" (indexed "e" 0 (dedupVals items'.reverse).reverse)) = S
+                generalize hAS : (Obj.mk .annset ao.cls [("_item_list", Val.ref s4.h.size), ("_item_set", Val.ref (s4.h.size + 1)),
+                  ("target", Val.ref s.h.size)]) = AS
+                have hjlt : s.h.size < s4.h.size := g4.lt hpre _ hmem4
+                obtain ⟨so4, oj4, hso4, hoj4, hrel4⟩ := hd4
+                simp only at hso4 hoj4
+                rw [ho0] at hso4; cases hso4
+                have hoj4' : (((s4.h.push L).push S).push AS)[s.h.size]? = some oj4 := by
+                  rw [← hoj4]
+                  have h1 : s.h.size ≠ s4.h.size + 2 := by omega
+                  have h2 : s.h.size ≠ s4.h.size + 1 := by omega
+                  have h3 : s.h.size ≠ s4.h.size := by omega
+                  simp [Array.getElem?_push, h1, h2, h3]
+                rw [setField_eq hoj4']
+                have hrel4' : ObjRel s4.m o { oj4 with fields := setFieldL "_annotations" (.ref (s4.h.size + 2)) oj4.fields } :=
+                  objRel_setAnn _ (annotationsRef_aware ha) (hrel4.resolve_left hk)
+                have iA : Iso h0 pre P ⟨(((s4.h.push L).push S).push AS).setIfInBounds s.h.size
+                    { oj4 with fields := setFieldL "_annotations" (.ref (s4.h.size + 2)) oj4.fields }, s4.m⟩ := by
+                  apply iso_update (iso_push (iso_push (iso_push i4 L) S) AS) s.h.size _ (fun p hp _ => hp)
+                  intro p hp e
+                  have hpi : i = p.1 := g4.inj hpre (i, s.h.size) p hmem4 hp hb e.symm
+                  exact Or.inr (Or.inr ⟨o, _, by rw [← hpi]; exact ho0, by rw [e]; exact getElem?_set_self hoj4' _, Or.inr hrel4'⟩)
+                have stP : Stable h0 s ⟨((s4.h.push L).push S).push AS, s4.m⟩ :=
+                  stable_trans st04 (stable_trans (stable_push h0 s4 L) (stable_trans (stable_push h0 ⟨s4.h.push L, s4.m⟩ S)
+                    (stable_push h0 ⟨(s4.h.push L).push S, s4.m⟩ AS)))
+                have stU := stable_update_new stP s.h.size (Nat.le_refl _)
+                  { oj4 with fields := setFieldL "_annotations" (.ref (s4.h.size + 2)) oj4.fields }
+                refine ⟨?_, stable_trans stU (stable_memo h0 _ a (s4.h.size + 2)), List.mem_cons_of_mem _ hmem4⟩
+                apply iso_memo iA
+                refine Or.inr ⟨ao, AS, hao0, ?_, Or.inl haok⟩
+                simp only
+                have : s.h.size ≠ s4.h.size + 2 := by omega
+                simp [this]
+                simp [Array.getElem_push]
+
+theorem qv_all (wf : WellFormed c h0) (hnw : ∀ x ∈ targets pre, isBound h0 x = false) (hpre : ∀ p ∈ pre, p.2 < h0.size)
+    (hann : ∀ (i : Nat) (o : Obj) (a : Nat), i < c → h0[i]? = some o → annotationsRef o = some a →
+      ∃ ao, h0[a]? = some ao ∧ ao.kind = .annset) : ∀ f, QV c h0 pre f
+  | 0 => qv_zero
+  | f + 1 => qv_succ wf hnw hpre hann (qv_all wf hnw hpre hann f)
+end iso
+end Aux
+open Aux
+
+/-- **copy_iso_partial** (the equality half of the property, object level): on a well-formed source region, after a successful copy
+(`copy_total` shows it succeeds) the returned value is the memo-image of the value copied, and EVERY memo entry `(i, j)` that was not
+pre-seeded pairs a source object with a copy of the same kind and class whose attributes are exactly the memo-images of the
+source's attributes (`ObjRel`: every source attribute has a same-named counterpart with corresponding value and the copy has no
+others) — nodes, edges, trees, lists, dicts, tuples, taxa, sequences, Annotation objects and their values alike, through cycles.
+No entry is left half-built. Exceptions built into `ObjRel`: `_value` of an attribute-bound annotation (re-targeted to the copy:
+`retarget_step_partial`) and the separately rebuilt `_annotations` link.
+PARTIAL — what is missing for the full equality clause: (1) for annotation-set objects (`annset` sources) nothing is stated: that the
+copy's item list consists of the memo-images of the source's items, in order, is not proved; (2) attributes correspond as sets of
+(name, value) pairs, their order in `__dict__` is not stated; (3) the memo-image is a relation (`(i, j) ∈ memo`), its
+functionality (one copy per source) is only known for fresh targets the other way round (`copy_memo_injective`). All three are
+covered by the per-case comparison of the canonical graph of the model's copy with the real copy. -/
+theorem copy_iso_partial (c : Nat) (h : Heap) (pre : Memo) (v : Val) (fuel : Nat) (s' : St) (v' : Val)
+    (wf : WellFormed c h) (hnw : ∀ x ∈ targets pre, isBound h x = false) (hpre : ∀ p ∈ pre, p.2 < h.size)
+    (hann : ∀ (i : Nat) (o : Obj) (a : Nat), i < c → h[i]? = some o → annotationsRef o = some a →
+      ∃ ao, h[a]? = some ao ∧ ao.kind = .annset)
+    (hv : SrcVal c v) (hr : cpVal fuel ⟨h, pre⟩ v = .ok (s', v')) :
+    ValRel s'.m v v' ∧
+    ∀ p ∈ s'.m, p ∈ pre ∨
+      ∃ o o', h[p.1]? = some o ∧ s'.h[p.2]? = some o' ∧ (o.kind = .annset ∨ ObjRel s'.m o o') := by
+  have hi0 : Iso h pre [] ⟨h, pre⟩ := fun p hp => Or.inl hp
+  obtain ⟨hi, _, hrel⟩ := qv_all wf hnw hpre hann fuel [] ⟨h, pre⟩ v s' v' (good_init h pre) hi0 hv hr
+  refine ⟨hrel, ?_⟩
+  intro p hp
+  rcases hi p hp with a | ⟨b, _⟩ | d
+  · exact Or.inl a
+  · cases b
+  · exact Or.inr d
+
+/-- **copy_root_corresponds**: in particular the copy of a source object that was not pre-seeded is an object of the same class
+whose attributes are the memo-images of the source's. -/
+theorem copy_root_corresponds (c : Nat) (h : Heap) (pre : Memo) (r : Nat) (fuel : Nat) (s' : St) (v' : Val)
+    (wf : WellFormed c h) (hnw : ∀ x ∈ targets pre, isBound h x = false) (hpre : ∀ p ∈ pre, p.2 < h.size)
+    (hann : ∀ (i : Nat) (o : Obj) (a : Nat), i < c → h[i]? = some o → annotationsRef o = some a →
+      ∃ ao, h[a]? = some ao ∧ ao.kind = .annset)
+    (hrc : r < c) (hr : cpVal fuel ⟨h, pre⟩ (.ref r) = .ok (s', v')) :
+    ∃ j, v' = .ref j ∧ (r, j) ∈ s'.m ∧
+      ((r, j) ∈ pre ∨ ∃ o o', h[r]? = some o ∧ s'.h[j]? = some o' ∧ (o.kind = .annset ∨ ObjRel s'.m o o')) := by
+  obtain ⟨hrel, hall⟩ := copy_iso_partial c h pre (.ref r) fuel s' v' wf hnw hpre hann (by intro i e; cases e; exact hrc) hr
+  cases v' with
+  | atom a => simp [ValRel] at hrel
+  | ref j => exact ⟨j, rfl, hrel, hall (r, j) hrel⟩
 
 /-! ### histories of later changes -/
 
@@ -1269,6 +2409,42 @@ example : (extract true (fun i => if i = 2 then "leaf" else "inner") (fun _ => "
     (.node 0 none none none [.node 1 none (some ⟨1, 1⟩) none [.node 2 (some 0) (some ⟨2, 1⟩) none []]])).labs
       = [("leaf", "-", "-")] := by
   simp [extract, extractL, X.withLen, X.labs, X.attrs, X.attrsL, encodeStr, absorb, X.len]
+/-- the cyclic two-object heap is well-formed, so `copy_total` applies to it (with and without pre-seeding) -/
+example : WellFormed 2 exHeap := by
+  have hcl : ∀ (i : Nat) (o : Obj), i < 2 → exHeap[i]? = some o → ∀ f ∈ o.fields, SrcVal 2 f.2 := by
+    intro i o hi hget f hf k hk
+    match i, hi with
+    | 0, _ =>
+      simp [exHeap] at hget; subst hget; simp at hf
+      rcases hf with h | h <;> subst h <;> simp at hk
+      subst hk; decide
+    | 1, _ =>
+      simp [exHeap] at hget; subst hget; simp at hf
+      subst hf; simp at hk; subst hk; decide
+  refine ⟨by decide, hcl, ?_, ?_⟩
+  · intro i o hi hget hk
+    match i, hi with
+    | 0, _ => simp [exHeap] at hget; subst hget; cases hk
+    | 1, _ => simp [exHeap] at hget; subst hget; cases hk
+  · intro i o a hi hget ha
+    match i, hi with
+    | 0, _ => simp [exHeap] at hget; subst hget; simp [annotationsRef] at ha
+    | 1, _ => simp [exHeap] at hget; subst hget; simp [annotationsRef] at ha
+example : SrcVal 2 (.ref 0) := by intro i h; cases h; decide
+/-- the correspondence relation on the copy of the cyclic heap: object 2 is the copy of object 0 under the memo [(1,3),(0,2)] -/
+example : ObjRel [(1, 3), (0, 2)] { kind := .plain, cls := "Node", fields := [("p", .ref 1), ("w", .atom "None")] }
+    { kind := .plain, cls := "Node", fields := [("p", .ref 3), ("w", .atom "None")] } := by
+  refine ⟨rfl, rfl, ?_, ?_⟩
+  · intro f' hf'
+    simp at hf'
+    rcases hf' with e | e <;> subst e
+    · exact Or.inr (Or.inr ⟨("p", .ref 1), by simp [planFields], rfl, by simp [ValRel]⟩)
+    · exact Or.inr (Or.inr ⟨("w", .atom "None"), by simp [planFields], rfl, by simp [ValRel]⟩)
+  · intro f hf
+    simp [planFields] at hf
+    rcases hf with e | e <;> subst e
+    · exact ⟨("p", .ref 3), by simp, rfl, Or.inl (by simp [ValRel])⟩
+    · exact ⟨("w", .atom "None"), by simp, rfl, Or.inl (by simp [ValRel])⟩
 example : ∀ x ∈ targets [(1, 1)], isBound exHeap x = false := by
   intro x hx; simp [targets] at hx; subst hx; rfl
 
